@@ -340,23 +340,23 @@ def run(tier, only=None):
         R.case([r["case"], i], True, sample=r["case"] if i % 211 == 0 else None, section="table")
         for sig in r["bad"]:
             R.violation(sig, {"case": r["case"], "i": i})
-    for r in check_exc(pmap(_random_job, range(40 if tier == "quick" else 400))):
+    for r in check_exc(pmap(_random_job, range(40 if tier == "quick" else 4000))):
         R.case(["random", r["k"]], True, section="random")
         for sig in r["bad"]:
             R.violation(sig, {"k": r["k"], "case": r["case"]})
-    for r in check_exc(pmap(_group_job, range(24 if tier == "quick" else 240))):
+    for r in check_exc(pmap(_group_job, range(24 if tier == "quick" else 2400))):
         R.case(["group", r["k"]], True, sample=r["case"] if r["k"] % 11 == 0 else None, section="group")
         for sig in r["bad"]:
             R.violation(sig, {"k": r["k"], "case": r["case"]})
-    for r in check_exc(pmap(_tube_section_job, range(24 if tier == "quick" else 240))):
+    for r in check_exc(pmap(_tube_section_job, range(24 if tier == "quick" else 2400))):
         R.case(["tube_section", r["k"]], True, section="tube_section")
         for sig in r["bad"]:
             R.violation(sig, {"k": r["k"]})
-    for r in check_exc(pmap(_wingbox_section_job, range(24 if tier == "quick" else 240))):
+    for r in check_exc(pmap(_wingbox_section_job, range(24 if tier == "quick" else 1200))):
         R.case(["wingbox_section", r["k"]], True, section="wingbox_section")
         for sig in r["bad"]:
             R.violation(sig, {"k": r["k"]})
-    for r in check_exc(pmap(_ks_job, range(240 if tier == "quick" else 2400))):
+    for r in check_exc(pmap(_ks_job, range(240 if tier == "quick" else 24000))):
         R.case(["ks", r["k"]], True, sample=r["case"] if r["k"] % 97 == 0 else None, section="ks")
         for sig in r["bad"]:
             R.violation(sig, {"k": r["k"], "case": r["case"]})
